@@ -341,9 +341,23 @@ def weights_obligations(theorems=None):
 
 def c10_obligations():
     """variance_to_weights (more ties of C10 are appended here)"""
-    return weights_obligations(V2W_THEOREMS)
+    return weights_obligations(V2W_THEOREMS) + blockreduce_obligations()
 
 
 def c13_obligations():
     """the coordinate functions of C13 plus maxabs"""
     return coord_obligations() + weights_obligations(MAXABS_THEOREMS)
+
+
+BLOCKRED_FUNCS = ["BlockReduce._block_coordinates"]
+BLOCKRED_THEOREMS = ["src_BlockReduce_block_coordinates_eq"]
+BLOCKRED_IMPORTS = ("From Verde Require Import Lib.QList Model.BlockReduce Proofs.BlockReduceProofs Proofs.PyLiteBridge "
+                    "Proofs.PyLiteBlocks.")
+BLOCKRED_SPEC = ("BlockReduceSrc", os.path.join("verde", "blockreduce.py"), BLOCKRED_FUNCS, "pylite_blockreduce.v.tmpl",
+                 BLOCKRED_IMPORTS)
+
+
+def blockreduce_obligations():
+    """verde/blockreduce.py BlockReduce._block_coordinates against Model/BlockReduce.v block_coords (C09, C10)"""
+    tag, mod_, funcs, tmpl, imports = BLOCKRED_SPEC
+    return tie(tag, mod_, funcs, tmpl, BLOCKRED_THEOREMS, imports)
